@@ -4,7 +4,7 @@ LEVEL = 'proof'
 CLAIM = ("isPowerOfTwo, next/prev/ceil/floor/roundPowerOfTwo, isMultiple, next/prev/ceil/floor/roundMultiple (integers: symbolic x AND symbolic m via cvc5 int-blasting; floats: rounding-erased with fmod as "
          "integer-quotient remainder), findNSB, mask, bitfieldFill*, bitfieldRotate*, bitfieldInterleave/Deinterleave (all overloads), gtc log2, gtx pow/sqrt/mod/factorial/nlz and gtx/bit helpers are executed "
          "symbolically from their clang IR at 8/16/32/64 bit and the solver shows the result is the documented integer for every argument in the stated domain.")
-BOUNDS = ('values unbounded (full machine width) except: gtx sqrt(x) for x < 2^10 (Newton loop, unwind 12), gtx pow exponent <= 8 (unwind 9), factorial n <= 12, highestBitValue loops unwind width+1, findNSB unwind 8; '
+BOUNDS = ('values unbounded (full machine width) except: gtx sqrt(x) for x < 2^8 (quick) / 2^10 (thorough) (Newton loop, unwind 12) and for x in the 64-wide bands starting at 2^31, 2^32-64, 65535^2-32 (uint) and 2^31-64, 46340^2-32 (int) (unwind 40), gtx pow exponent <= 8 (unwind 9), factorial n <= 12, highestBitValue loops unwind width+1, findNSB unwind 8; '
           'power-of-two family on x > 0 with representable result; multiples with m > 0 and representable result; float multiples: rounding-erased, m in a constant set')
 OUTSIDE = 'negative arguments of the power-of-two family (no documented meaning); rounding of float multiples; sqrt/pow beyond the stated ranges'
 ASSUMPTIONS = ['urem/srem kernels are decided by cvc5 --solve-bv-as-int=sum (z3 bit-blasting does not finish beyond 8 bit)']
@@ -254,11 +254,6 @@ def job_gtx(S):
         return res
     S.check_fn(U, 'ipow', lambda i, o: [('pow', o[0][0] == powspec(i[0][0], i[1][0]))], lambda i: [z3.ULE(i[1][0], 8)], unwind=9, known=['KF-C18-ipow-zero-exponent'], bounds='exponent <= 8, product modulo 2^32')
     S.check_fn(U, 'upow', lambda i, o: [('pow', o[0][0] == powspec(i[0][0], i[0][1]))], lambda i: [z3.ULE(i[0][1], 8)], unwind=9, bounds='exponent <= 8')
-    def sq(i, o):
-        x, r = zx(i[0][0], 64), zx(o[0][0], 64)
-        return [('floor-sqrt', z3.And(r * r <= x, (r + 1) * (r + 1) > x))]
-    S.check_fn(U, 'usqrt', sq, lambda i: [z3.ULT(i[0][0], 1 << 10)], unwind=12, solver='portfolio', timeout=S.cap(200, 600), bounds='x < 2^10')
-    S.check_fn(U, 'isqrt', sq, lambda i: [i[0][0] >= 0, i[0][0] < (1 << 10)], unwind=12, solver='portfolio', timeout=S.cap(200, 600), bounds='0 <= x < 2^10')
     def md(i, o):
         x, y, r = i[0][0], i[0][1], o[0][0]
         t = z3.SRem(x, y)        # SMT-LIB truncated remainder; floor-mod for y > 0 adds y when it is negative
@@ -290,12 +285,27 @@ def job_float_mult(f, ft):
             S.check_fn(U, '%s_%s' % (f, ft), spec, pre, mode='real', known=kn, ins=[[z3.Real('a0'), z3.RealVal(mval)]], name='c18.%s_%s.m=%s' % (f, ft, mval), bounds='rounding-erased; |x| <= 1000; m = %s' % mval, timeout=S.cap(60, 200))
     return run
 
+def job_gtx_sqrt(S):
+    def sq(i, o):
+        x, r = zx(i[0][0], 64), zx(o[0][0], 64)
+        return [('floor-sqrt', z3.And(r * r <= x, (r + 1) * (r + 1) > x))]
+    LB = 8 if S.quick else 10       # the fully symbolic low range costs ~100 s per overload at 2^10 (symbolic-by-symbolic division in every Newton step)
+    S.check_fn(U, 'usqrt', sq, lambda i: [z3.ULT(i[0][0], 1 << LB)], unwind=12, solver='z3', timeout=S.cap(200, 600), bounds='x < 2^%d' % LB)
+    S.check_fn(U, 'isqrt', sq, lambda i: [i[0][0] >= 0, i[0][0] < (1 << LB)], unwind=12, solver='z3', timeout=S.cap(200, 600), bounds='0 <= x < 2^%d' % LB)
+    # high argument ranges: bands [base, base + 2^10) with a concrete base (the early Newton steps then fold to constants); bounded claim, bands listed in BOUNDS
+    lo = z3.BitVec('lo', 6)
+    for nm, sg, bases in (('usqrt', False, (1 << 31, (1 << 32) - 64, 65535 * 65535 - 32)), ('isqrt', True, ((1 << 31) - 64, 46340 * 46340 - 32))):
+        for b in bases:
+            xin = z3.BitVecVal(b, 32) + z3.ZeroExt(26, lo)
+            S.check_fn(U, nm, sq, None, ins=[[xin]], unwind=40, validate=0, witness=False, solver='z3', timeout=S.cap(60, 200), name='c18.%s.band_%#x' % (nm, b), bounds='%#x <= x < %#x' % (b, b + 64))
+
 def jobs(tier):
     q = tier == 'quick'; J = []
     for t in (['i32', 'u32', 'u8', 'i64', 'u16'] if q else TYS):
         J.append(('pow2_' + t, job_pow2(t)))
         if not (q and width(t) == 64): J.append(('findNSB_' + t, job_findnsb(t)))      # 64-bit findNSB needs minutes: thorough tier only
         J.append(('bitfield_' + t, job_bitfield(t)))
+    if q: J.append(('pow2_u64', job_pow2('u64')))       # the unsigned 64-bit smear ladder has a stage of its own (>> 32)
     for t in (['i32', 'u32', 'u16', 'u64'] if q else TYS):
         for f in MUL: J.append(('%s_%s' % (f, t), job_mult(t, f)))
     for t in (('u32', 'u8') if q else ('i32', 'u32', 'u8')):
@@ -305,7 +315,7 @@ def jobs(tier):
             J.append(('bitfield_v%d_%s' % (L, t), job_bitfield_vec(t, L)))
             if not q:
                 for f in MUL: J.append(('%s_v%d_%s' % (f, L, t), job_mult(t, f, L)))
-    J.append(('interleave', job_interleave)); J.append(('gtx_integer', job_gtx))
+    J.append(('interleave', job_interleave)); J.append(('gtx_integer', job_gtx)); J.append(('gtx_sqrt', job_gtx_sqrt))
     for ft in (('float',) if q else ('float', 'double')):
         for f in ('ceilMultiple', 'floorMultiple', 'roundMultiple'): J.append(('%s_%s' % (f, ft), job_float_mult(f, ft)))
     return J
